@@ -84,7 +84,7 @@ IMPORTS = ['Coq.Lists.List', 'Coq.Strings.String', 'Coq.NArith.NArith', 'Coq.ZAr
            'SV.Bin.LE', 'SV.Bin.Struct', 'SV.Bin.RLE', 'SV.Bin.FindInsert', 'SV.Fmt.BspFormatsSpec', 'SV.Fmt.BspDedup', 'SV.Gen.BspFormats_gen']
 IMPORTS_GLUE = ['Coq.Lists.List', 'Coq.Strings.String', 'Coq.NArith.NArith', 'Coq.ZArith.ZArith', 'Coq.Bool.Bool',
                 'SV.Bin.LE', 'SV.Bin.Struct', 'SV.Bin.RLE', 'SV.Fmt.BspFormatsSpec', 'SV.Fmt.BspVisRow', 'SV.Fmt.BspTexStrings',
-                'SV.Fmt.BspRecords', 'SV.Fmt.VmfText', 'SV.Fmt.BspEntLump', 'SV.Fmt.BspDedup', 'SV.Fmt.BspFlagSplit', 'SV.Fmt.BspOverlayRec', 'SV.Fmt.BspWorklist', 'SV.Fmt.BspPhys', 'SV.Bin.BspDeferred', 'SV.Fmt.BspSpriteDict', 'SV.Gen.BspFormats_gen', 'SV.Gen.BspGlue_gen']
+                'SV.Fmt.BspRecords', 'SV.Fmt.VmfText', 'SV.Fmt.BspEntLump', 'SV.Fmt.BspDedup', 'SV.Fmt.BspFlagSplit', 'SV.Fmt.BspOverlayRec', 'SV.Fmt.BspWorklist', 'SV.Fmt.BspPhys', 'SV.Bin.BspDeferred', 'SV.Fmt.BspSpriteDict', 'SV.Fmt.BspPropVersion', 'SV.Gen.BspFormats_gen', 'SV.Gen.BspGlue_gen']
 PRE = '''Import ListNotations. Open Scope string_scope. Open Scope list_scope.
 Fixpoint nl_eqb (a b : list N) : bool := match a, b with [], [] => true | x :: a', y :: b' => N.eqb x y && nl_eqb a' b' | _, _ => false end.
 Fixpoint natl_eqb (a b : list nat) : bool := match a, b with [], [] => true | x :: a', y :: b' => Nat.eqb x y && natl_eqb a' b' | _, _ => false end.
@@ -979,6 +979,104 @@ def corr_find(ck: Ck) -> None:
 
 
 # ------------------------------------------------------------------------------------------------ oracle
+def corr_propver(ck: Ck, base: str, glue: dict) -> None:
+    """The tables of translate/c11_propver.py (made by executing the heads of _lmp_read_props / _lmp_write_props over the ast) against
+    the running implementation, EXHAUSTIVELY: every BSP version x header number 0..15 x format named beforehand for an empty lump; x
+    every record size for a lump with one (all-zero) record; every recorded format for the writer (record size written)."""
+    import srctools.bsp as B
+    from srctools.math import Angle, Vec
+    t = glue.get('prop_version_choice')
+    if not t:
+        return
+    SV = B.StaticPropVersion
+    b = B.BSP(base)
+    b.visleafs      # (parsed now, in the file's own layout: the calls below change `version` under the object's feet)
+    leaf_w = struct.calcsize('<' + b.lump_layout['STATICPROPLEAF'].format[1])
+    bad: list[str] = []
+
+    def fmt_of(nm: str) -> Any:
+        return SV[nm] if nm else SV[t['unknown']]
+
+    def bsp_version(n: int) -> Any:
+        try:
+            return B.VERSIONS(n)
+        except ValueError:
+            return n
+
+    def read(bv: int, hdr: int, data: bytes, pre: str) -> str:
+        b.version = bsp_version(bv)
+        b.static_prop_version = fmt_of(pre)
+        try:
+            with U.time_limit(U.IMPL_TIME_LIMIT):
+                list(b._lmp_read_props(hdr, data))
+        except Exception as e:      # noqa: BLE001
+            return '!' + type(e).__name__
+        v = b.static_prop_version
+        return '' if v is SV[t['unknown']] else v.name
+    empty = struct.pack('<iii', 0, 0, 0)
+    for bv, hdr, pre, want in t['empty']:
+        got = read(bv, hdr, empty, pre)
+        ck.count('prop_format_table_rows_compared')
+        if got != want:
+            bad.append(f'empty lump, BSP version {bv}, header {hdr}, named {pre or "-"}: table {want or "-"}, implementation {got or "-"}')
+    for bv, hdr, size, pre, want, _dec, _lad in t['sized']:
+        data = struct.pack('<i', 1) + b'm'.ljust(128, b'\0') + struct.pack('<i', 0) + struct.pack('<i', 1) + bytes(size)
+        got = read(bv, hdr, data, pre)
+        ck.count('prop_format_table_rows_compared')
+        # (a record of the wrong size that the head does not reject may fail later: only the head is tabulated)
+        if got != want and not (want.startswith('!') and got.startswith('!')):
+            bad.append(f'one record of {size} bytes, BSP version {bv}, header {hdr}, named {pre or "-"}: table {want or "-"}, implementation {got or "-"}')
+    sizes = {m[0]: m[2] for m in t['members']}
+    for pre, rec, written, _lad in t['writer']:
+        b.version = B.VERSIONS.HL2_EP1
+        b.static_prop_version = fmt_of(pre)
+        try:
+            with U.time_limit(U.IMPL_TIME_LIMIT):
+                data = bytes(b._lmp_write_props([B.StaticProp('m', Vec(), Angle())]))
+            (nm,) = struct.unpack_from('<i', data, 0)
+            (nl,) = struct.unpack_from('<i', data, 4 + 128 * nm)
+            got_size = len(data) - (4 + 128 * nm + 4 + leaf_w * nl + 4)
+            got = (b.static_prop_version.name, got_size)
+        except Exception as e:      # noqa: BLE001
+            got = ('!' + type(e).__name__, 0)
+        ck.count('prop_format_table_rows_compared')
+        if got != (rec, sizes.get(written, 0)):
+            bad.append(f'writer, recorded before {pre or "-"}: table records {rec}, writes in {written} ({sizes.get(written, 0)} bytes); implementation {got}')
+    ck.obligation('correspondence:prop_version_choice', not bad,
+                  f'{len(t["empty"]) + len(t["sized"]) + len(t["writer"])} table rows (every BSP version x header number x record size x format named) '
+                  f'against _lmp_read_props / _lmp_write_props: {len(bad)} disagreements' + (': ' + '; '.join(bad[:5]) if bad else ''))
+    if bad:
+        ck.tie_broken.append('correspondence static-prop format tables vs _lmp_read_props / _lmp_write_props')
+
+
+def version_histories(ck: Ck, base: str, wd: str) -> None:
+    """Histories in which the format / version the WRITER uses was chosen by the READER of an earlier file: a file whose static-prop,
+    detail-prop, overlay and cubemap tables are EMPTY is read (every layout x every header number that a static-prop format has),
+    a world is assigned to the same object, saved, and re-read by a fresh object.  Nobody names the static-prop format."""
+    import srctools.bsp as B
+    hdrs = sorted({v.version for v in B.StaticPropVersion if v.name in U.PROP_VERSIONS})
+    feats_pool = ['water', 'hdr', 'physics', 'outputs', 'fresh_objects', 'shared_objects', 'near_duplicates', 'grafted', 'hi_bytes']
+    rounds = ck.budget(1, 12)
+    for rnd in range(rounds):
+        for cfg in U.CONFIGS:
+            for hdr in hdrs:
+                feats = set() if rnd == 0 else {f for f in feats_pool if ck.rng.random() < 0.35}
+                seed = ck.rng.getrandbits(40)
+                res, g, chosen = U.from_empty(base, wd, cfg, hdr, seed, feats, 3 if rnd == 0 else ck.rng.choice([2, 4, 6]))
+                ck.count('histories_read_empty_then_assign')
+                ck.hist('history_header_number', str(hdr))
+                ck.hist('history_format_chosen_for_empty_lump', chosen)
+                ck.seen(('from_empty', cfg, hdr, seed))
+                for view, diff in res.items():
+                    where = 'v20' if cfg == 'v20' else 'not-v20'
+                    key = f'from-empty-lump:{view}' + (f':header-{hdr}:bsp-{where}' if view == 'props' or view.startswith('!') else '')
+                    ck.violation(key, f'a file with an empty static-prop lump (header number {hdr}, layout {cfg}) is read, a world is assigned to the same '
+                                      f'BSP object and saved; re-read by a fresh object: {diff}',
+                                 {'history': 'from_empty', 'cfg': cfg, 'header': hdr, 'seed': seed, 'feats': sorted(feats),
+                                  'size': g.size if g is not None else 3, 'hview': view, 'chosen': chosen, 'diff': diff,
+                                  'how': 'harness.c11_util.from_empty(base, dir, cfg, header, seed, feats, size); ./check C11 --replay <this file>'})
+
+
 def classify(view: str, diff: str, feats: set[str], g: U.Gen) -> str:
     if view == 'water_leaf_info' and diff.startswith('water_leaf_info: length') and diff.endswith('!= 0'):
         return 'water-leaf-info-writer-uses-self'
@@ -1320,6 +1418,15 @@ def glue_obligations(glue: dict) -> dict[str, str]:
                                                      'sprite_entry_ok (fst sprite_dict_fmts) (snd sprite_dict_fmts) e) sprite_dict' % c)
     obs['sprite_dictionary_found'] = 'sprite_dict_ok sprite_dict_fmts sprite_dict'
     obs['index_table_loops_found'] = 'negb (Nat.eqb (List.length worklists) 0)'
+    # the static-prop format: chosen by the reader of one file, used by the writer of the next.  History 1, per header number: a file
+    # with an EMPTY lump is read, props are assigned and saved, a fresh reader decodes with the format they were written in.
+    # History 2, per format: named by the caller it is the format written, and a fresh reader finds a format of the same header number and size
+    pv = glue.get('prop_version_choice', {})
+    for h in sorted({m[1] for m in pv.get('members', [])}):
+        obs[f'prop_format_chosen_for_empty_lump_is_found_again:header-{h}'] = f'pv_from_empty_ok_hdr pv_tables {h}%N'
+    for k, m in enumerate(pv.get('members', [])):
+        obs[f'prop_format_named_is_written_and_found_again:{m[0]}'] = f'forallb (fun bv => hist_named_ok pv_tables bv {k + 1}%N) pv_bsp_versions'
+    obs['prop_format_tables_pass'] = 'pv_ok pv_tables'
     obs['rebuild_order_runs_appending_writers_first'] = 'order_ok rebuild_order append_edges'
     return obs
 
@@ -1458,6 +1565,10 @@ def run(ck: Ck) -> None:
             guarded(ck, 'reject_probes', reject_probes, ck, base, wd)
             guarded(ck, 'output_delay_probe', high_precision_delay_probe, ck, base, wd)
             lap('reject_probes')
+            guarded(ck, 'version_histories', version_histories, ck, base, wd)
+            if built:
+                guarded(ck, 'corr_propver', corr_propver, ck, base, glue)
+            lap('version_histories')
             guarded(ck, 'search', search, ck, base, wd)
             lap('search')
     finally:
@@ -1568,6 +1679,9 @@ def run(ck: Ck) -> None:
             for pref, views in view_of.items():
                 if st.startswith(pref) and (hit_views & set(views) or '!any' in hit_views or '!save' in hit_views or '!read' in hit_views):
                     ck.explain(nm)
+        if nm.startswith('instance:prop_format_') and (any(k.startswith('from-empty-lump:props') or k.startswith('from-empty-lump:!') or k.startswith('props')
+                                                            for k in keys) or hit_views & {'!read', '!save'}):
+            ck.explain(nm)
         if nm.startswith('instance:prop_layout_agree:') or nm.startswith('instance:prop_fields_agree:'):
             if 'props' in hit_views or '!save' in hit_views or '!read' in hit_views:
                 ck.explain(nm)
@@ -1582,6 +1696,11 @@ def replay(data: dict) -> int:
     base = os.path.join(wd, 'base.bsp')
     U.make_base(str(REPO / 'tests' / 'test_vec' / 'rot_main.bsp'), base)
     try:
+        if r.get('history') == 'from_empty':
+            res, _g, chosen = U.from_empty(base, wd, r['cfg'], r['header'], r['seed'], set(r['feats']), r['size'])
+            print('format chosen after reading the empty lump:', chosen)
+            print('implementation (read empty, assign, save, re-read) differences per view:', res or 'none')
+            return 1 if r['hview'] in res else 0
         if 'seed' in r and 'view' in r:
             g = U.Gen(r['seed'], r['cfg'], r['prop_ver'], set(r['feats']), r['size'])
             res = U.roundtrip(base, wd, g)
